@@ -40,6 +40,7 @@ class FnModel:
             self.param_index[p["did"]] = i
         self.lambda_param = {}   # did -> (lambda node, index)
         self.loop_vars = {}      # did -> ForStmt node
+        self.detached_counters = {}   # did -> ForStmt node whose counter is declared before the loop (registered as loop variables once the walk is over)
         self.assigned = {}       # did -> count of plain assignments
         self.range_vars = {}     # did -> range expression of the range-for that declares it
         incremented = []
@@ -58,6 +59,11 @@ class FnModel:
                     for v in kids(init):
                         if v.get("k") == "VarDecl":
                             self.loop_vars[v["did"]] = x
+                elif init is None and x["c"][1] is not None and x["c"][2] is not None:
+                    # `long l = start; for( ; l >= stop ; --l)`: the counter is declared before the loop
+                    inc0 = strip(x["c"][2])
+                    if inc0.get("k") == "UnaryOperator" and inc0.get("op") in ("++", "--") and strip(kids(inc0)[0]).get("k") == "DeclRefExpr":
+                        self.detached_counters[strip(kids(inc0)[0])["did"]] = x
             if k in ("BinaryOperator", "CompoundAssignOperator") and x.get("op") in ("=", "+=", "-="):
                 lhs = strip(kids(x)[0])
                 if lhs.get("k") == "DeclRefExpr":
@@ -68,6 +74,10 @@ class FnModel:
                 if lhs.get("k") == "DeclRefExpr" and re.match(r"^(const )?(unsigned )?(long|int|long int|long long|short|size_t|std::size_t|std::ptrdiff_t|ptrdiff_t)$", lhs.get("t", "").strip()):
                     incremented.append(lhs["did"])
 
+        # a detached counter that nothing but its loop's step modifies is that loop's variable
+        for did, f_ in self.detached_counters.items():
+            if did in self.decls and kids(self.decls[did]) and not self.assigned.get(did) and incremented.count(did) == 1:
+                self.loop_vars[did] = f_
         for did in incremented:
             if did not in self.loop_vars:
                 self.assigned[did] = self.assigned.get(did, 0) + 1
@@ -136,7 +146,11 @@ class FnModel:
                     o0 = self.origin(kids(d0)[0], depth + 1)
                     if o0.startswith(("it(", "end(")):
                         return o0          # for(auto it = X.begin(), end = X.end(); ...): iterators, same descriptors as the while form
-                return "L" if self.is_level_loop(self.loop_vars[did]) else "loopvar"   # (sym() distinguishes loop variables by declaration)
+                if self.is_level_loop(self.loop_vars[did]):
+                    # a loop over levels INSIDE a task body is not the stage's level loop: what it names at each of its iterations is
+                    # not what a handle taken outside the task at "the" level names
+                    return "Lt" if id(self.loop_vars[did]) in self._task_nodes() else "L"
+                return "loopvar"   # (sym() distinguishes loop variables by declaration)
             if did in self.lambda_bind:
                 return self.lambda_bind[did]        # parameter of a local lambda being expanded at one of its call sites
             if did in self.range_vars:
@@ -426,9 +440,23 @@ class FnModel:
             return sympy.Integer(int(o))
         return sympy.Symbol("<" + o + ">", integer=True)
 
+    def _task_nodes(self):
+        if getattr(self, "_tn", None) is None:
+            self._tn = set()
+            for x in walk(self.body):
+                if x.get("k") == "OMPTaskDirective":
+                    for y in walk(x):
+                        if y is not x:
+                            self._tn.add(id(y))
+        return self._tn
+
     def loop_interval(self, forstmt):
         """(lo, hi, direction) of a for loop with a single induction variable"""
         init, cond, inc, _body = forstmt["c"]
+        if init is None and cond is not None and inc is not None:
+            dc = [d for d, f_ in self.detached_counters.items() if f_ is forstmt and d in self.decls and kids(self.decls[d])]
+            if len(dc) == 1:
+                init = {"k": "DeclStmt", "c": [self.decls[dc[0]]]}
         if init is None or cond is None or inc is None:
             raise AnalysisBroken("for loop without init/cond/inc at " + self.facts.loc(forstmt))
         v = [x for x in kids(init) if x.get("k") == "VarDecl"]
